@@ -10,7 +10,9 @@ Workload: generated import graphs on disk (checks/c10_gen.py).
 import json
 import os
 import random
+import re
 import threading
+import time
 
 import vlib
 from vlib import Check, Scratch, Probe, ProbeDied, log
@@ -44,6 +46,33 @@ class Ctx:
             return self.probe().request({"op": "parse", "id": cid, "file": path, "cpu_sec": 30})
         except ProbeDied as e:
             return {"died": "%s %s" % (e.marker, vlib.classify_death(e.stderr_tail))}
+
+    def parse_expect_accept(self, cid, path):
+        """parse of a program that must be accepted; an unexpected rejection is re-tried twice, because the install directory
+        (Duden/, list definitions) may be rebuilt by a concurrent build.sh - a transient tool failure, not a verdict"""
+        r = self.parse(cid, path)
+        for _ in range(2):
+            if r.get("died") or r.get("panic") or not rejected(r):
+                break
+            time.sleep(1.5)
+            r2 = self.parse(cid, path)
+            if not rejected(r2):
+                self.chk.count("transient_front_end_rejections_retried")
+            r = r2
+        return r
+
+    def compile_expect_ok(self, main, exe, O=1):
+        """kddp on an accepted program; a failure is re-tried twice (same reason as above); a deterministic failure stays a failure"""
+        pr = vlib.kddp_compile(main, exe, O=O)
+        for _ in range(2):
+            if pr.timed_out or (pr.rc == 0 and os.path.exists(exe)):
+                break
+            time.sleep(1.5)
+            pr2 = vlib.kddp_compile(main, exe, O=O)
+            if pr2.rc == 0 and os.path.exists(exe):
+                self.chk.count("transient_kddp_failures_retried")
+            pr = pr2
+        return pr
 
     def tag(self, tags):
         with self.lock:
@@ -90,7 +119,7 @@ def run_graph(ctx, spec, olevels, d):
     materialize(d, spec["files"])
     main = os.path.join(d, spec["main"])
     nviol = 0
-    r = ctx.parse(spec["name"], main)
+    r = ctx.parse_expect_accept(spec["name"], main)
     if r.get("died") or r.get("panic"):
         chk.count("front_end_crashes_left_to_C03")
         return 0
@@ -102,7 +131,7 @@ def run_graph(ctx, spec, olevels, d):
         return 1
     for O in olevels:
         exe = os.path.join(d, "out_O%d" % O)
-        pr = vlib.kddp_compile(main, exe, O=O)
+        pr = ctx.compile_expect_ok(main, exe, O=O)
         if pr.timed_out:
             chk.inconclusive += 1
             continue
@@ -110,7 +139,7 @@ def run_graph(ctx, spec, olevels, d):
         if pr.rc != 0 or not os.path.exists(exe):
             err = (pr.err + pr.out)
             cls = "llvm: invalid redefinition of function" if "invalid redefinition of function" in err else \
-                  ("linker" if "Fehler beim Linken" in err else err.strip().split("\n")[0][:80])
+                  ("linker" if "Fehler beim Linken" in err else re.sub(r"/\S*/", "", err.strip().split("\n")[0])[:80])
             chk.violation({"kind": "accepted-graph-not-compiled", "error": cls, "O": O, "shape": spec.get("tags", [])[:1] if spec["kind"] == "plain" else forms_of(spec)},
                           files=replay_files(spec, {"kddp_stderr.txt": err[-6000:]}), text="front end accepts, kddp exit %s: %s" % (pr.rc, err[-400:]))
             nviol += 1
@@ -153,7 +182,7 @@ def run_cycle(ctx, spec, d, cli=True):
     chk = ctx.chk
     materialize(d, spec["files"])
     main = os.path.join(d, spec["main"])
-    r = ctx.parse(spec["name"], main)
+    r = ctx.parse(spec["name"], main) if spec["expect_reject"] else ctx.parse_expect_accept(spec["name"], main)
     if r.get("died") or r.get("panic"):
         chk.count("front_end_crashes_left_to_C03")
         return 0
@@ -182,7 +211,7 @@ def run_cycle(ctx, spec, d, cli=True):
             chk.count("unreachable_cycles_accepted")
     if cli:
         exe = os.path.join(d, "out")
-        pr = vlib.kddp_compile(main, exe)
+        pr = vlib.kddp_compile(main, exe) if spec["expect_reject"] else ctx.compile_expect_ok(main, exe)
         if pr.timed_out:
             chk.inconclusive += 1
         else:
@@ -223,7 +252,7 @@ def run_vis(ctx, spec, d, dynamic, cli):
     chk = ctx.chk
     materialize(d, spec["files"])
     main = os.path.join(d, spec["main"])
-    r = ctx.parse(spec["name"], main)
+    r = ctx.parse_expect_accept(spec["name"], main) if spec["expect"] == "accept" else ctx.parse(spec["name"], main)
     if r.get("died") or r.get("panic"):
         chk.count("front_end_crashes_left_to_C03")
         return 0
@@ -247,7 +276,7 @@ def run_vis(ctx, spec, d, dynamic, cli):
             chk.count("vis_reject-import_with_specific_message")
     if cli or (dynamic and not rej):
         exe = os.path.join(d, "out")
-        pr = vlib.kddp_compile(main, exe)
+        pr = vlib.kddp_compile(main, exe) if rej else ctx.compile_expect_ok(main, exe)
         if pr.timed_out:
             chk.inconclusive += 1
             return nviol
@@ -258,7 +287,7 @@ def run_vis(ctx, spec, d, dynamic, cli):
             nviol += 1
         if not rej:
             if pr.rc != 0:
-                chk.violation({"kind": "accepted-graph-not-compiled", "error": (pr.err + pr.out).strip().split("\n")[0][:80], "O": 1, "shape": "visibility " + spec["cell"]},
+                chk.violation({"kind": "accepted-graph-not-compiled", "error": re.sub(r"/\S*/", "", (pr.err + pr.out).strip().split("\n")[0])[:80], "O": 1, "shape": "visibility " + spec["cell"]},
                               files=replay_files(spec, {"kddp_stderr.txt": pr.err[-4000:]}), text=pr.err[-400:])
                 return nviol + 1
             rr = vlib.run_exe(exe)
@@ -281,9 +310,9 @@ def run(tier):
     chk = Check(PID, tier)
     seed = chk.seed
     if tier == "quick":
-        n_graphs, olevels, n_extra_o, n_cycles, n_vis_dyn, n_vis_cli = 110, [1], 24, 48, 64, 40
+        n_graphs, olevels, n_extra_o, n_cycles, n_vis_matrix, n_vis_dyn, n_vis_cli = 100, [1], 20, 40, 300, 48, 32
     else:
-        n_graphs, olevels, n_extra_o, n_cycles, n_vis_dyn, n_vis_cli = 2000, [0, 1, 2], 0, 600, 10 ** 9, 400
+        n_graphs, olevels, n_extra_o, n_cycles, n_vis_matrix, n_vis_dyn, n_vis_cli = 2000, [0, 1, 2], 0, 600, 10 ** 9, 10 ** 9, 400
     chk.rule = ("dynamic: %d generated acyclic import graphs of 2..7 modules (chains, diamonds with dependent siblings, dense graphs, nested directories, "
                 "directory and recursive directory imports, whole and selective imports with 1/2/3+ names, one module imported in two parts and through "
                 "several spellings of its path, unreachable modules, top-level statements in imports) + hand-written shapes, compiled by kddp at -O %s and run; "
@@ -292,8 +321,9 @@ def run(tier):
                 "of an unreachable module; every name prints the value of the declaration of the module it was imported from; finally equality with the model trace "
                 "(post-order walk in source order, DESIGN §8). cycles: %d graphs with an import cycle of length 1..4 (reachable: rejected with the cycle diagnostic by "
                 "the front end and by kddp, no executable; unreachable: accepted). static: the full matrix declaration kind x visibility in two modules x import "
-                "mode of each x own declaration (one used name per program) + Kombination fields, verdict of the real front end; printed value of accepted cells. "
-                "Distinct = (graph, -O) / cycle case / matrix cell." % (n_graphs, olevels, n_cycles))
+                "mode of each x own declaration (one used name per program; quick: seeded sample of %s judged cells) + Kombination fields, non-re-export, directory imports; "
+                "verdict of the real front end; printed value of accepted cells. "
+                "Distinct = (graph, -O) / cycle case / matrix cell." % (n_graphs, olevels, n_cycles, n_vis_matrix if n_vis_matrix < 10 ** 6 else "all"))
     chk.assumptions = [
         "module identity is the lexically cleaned absolute path; symbolic links and hard links are not generated",
         "--module-linken=false is not exercised: kddp does not compile imported modules in that mode (the link step fails for every program with an import)",
@@ -316,6 +346,12 @@ def run(tier):
             jobs.append(("cyclei", i, None))
         vis = gen.vis_cases()
         rnd = random.Random("c10-vis:%d" % seed)
+        # quick: a seeded sample of the two-module matrix (judged cells only) + all field / transitive / directory cells
+        matrix = [i for i, v in enumerate(vis) if v["name"].count("-") == 6 and v["name"].split("-")[1] in gen.KINDS and v["expect"] != "conflict"]
+        if n_vis_matrix < len(matrix):
+            keep = set(rnd.sample(matrix, n_vis_matrix)) | {i for i, v in enumerate(vis) if v["cell"].split(":")[0] in ("field", "transitive", "directory")}
+            vis = [v for i, v in enumerate(vis) if i in keep]
+        chk.extra["visibility_probes"] = len(vis)
         acc = [i for i, v in enumerate(vis) if v["expect"] == "accept"]
         rejs = [i for i, v in enumerate(vis) if v["expect"].startswith("reject")]
         dyn = set(acc if n_vis_dyn >= len(acc) else rnd.sample(acc, n_vis_dyn))
@@ -344,7 +380,7 @@ def run(tier):
                         chk.sample({"cycle": spec["name"], "files": spec["files"], "verdict": "rejected with cycle diagnostic" if spec["expect_reject"] else "accepted"})
                 else:
                     run_vis(ctx, a, os.path.join(sc.path, "v", a["name"]), b[0], b[1])
-                    if a["name"] in ("v-func-pub-priv-selO-whole-noown", "v-struct-priv-pub-whole-selN-noown"):
+                    if a["cell"] in ("field:selVar/fpub/var", "transitive:func/whole/whole", "directory:var/sub/pub/flat"):
                         chk.sample({"probe": a["name"], "files": a["files"], "expected": a["expect"], "value": a["value"]})
             except Exception as e:   # harness trouble must not be mistaken for a pass
                 import traceback
